@@ -52,17 +52,31 @@ func ruleN1(c *Ctx) {
 			c.check(t.Exit == "" && r.name(t.To) == st, "N1", "inside-comma:"+st, token.NoPos, "a comma inside "+st+" is ordinary content")
 		}
 	}
-	// multipleValsOk's constant set
+	// multipleValsOk's constant set: decided on SSA (exact partition of the one-byte header kind over the boolean
+	// result), whatever the spelling (switch, if chain, boolean expression)
 	if fd := c.Decls["multipleValsOk"]; fd != nil {
 		var got []string
-		ast.Inspect(fd.Body, func(n ast.Node) bool {
-			if cl, ok := n.(*ast.CaseClause); ok {
-				for _, e := range cl.List {
-					got = append(got, c.constName(e))
+		if mf := c.SFuncs["multipleValsOk"]; mf != nil {
+			yes := emptySet()
+			exact := true
+			for _, o := range byteDecision(c, mf) {
+				switch {
+				case o.Result == "true" && len(o.Conds) == 0:
+					yes = yes.union(o.Bytes)
+				case o.Result == "false" && len(o.Conds) == 0:
+				default:
+					exact = false
 				}
 			}
-			return true
-		})
+			for _, nm := range []string{"HdrContact", "HdrPAI", "HdrRecordRoute", "HdrRoute"} {
+				if v, ok := c.namedConstInt(nm); ok && v >= 0 && v < 256 && yes.has(int(v)) {
+					got = append(got, nm)
+				}
+			}
+			if !exact || yes.count() != len(got) {
+				got = append(got, fmt.Sprintf("(+%d other values or undecided paths)", yes.count()-len(got)))
+			}
+		}
 		sort.Strings(got)
 		c.check(strings.Join(got, ",") == "HdrContact,HdrPAI,HdrRecordRoute,HdrRoute", "N1", "multi-kinds", fd.Pos(), fmt.Sprintf("multi-value header kinds are Contact, Record-Route, Route, P-Asserted-Identity (got %v)", got))
 	}
@@ -175,22 +189,34 @@ func ruleN3(c *Ctx) {
 		return true
 	})
 	seen := map[string]int{}
+	// the recognising conditions: `if cond` or `case cond:` of a tag-less switch (same thing, other spelling)
+	var condExprs []ast.Expr
 	ast.Inspect(fd.Body, func(n ast.Node) bool {
-		is, ok := n.(*ast.IfStmt)
-		if !ok {
-			return true
+		switch x := n.(type) {
+		case *ast.IfStmt:
+			condExprs = append(condExprs, x.Cond)
+		case *ast.SwitchStmt:
+			if x.Tag == nil {
+				for _, st := range x.Body.List {
+					if cl, ok := st.(*ast.CaseClause); ok {
+						condExprs = append(condExprs, cl.List...)
+					}
+				}
+			}
 		}
-		cond := strings.ReplaceAll(c.src(is.Cond), " ", "")
+		return true
+	})
+	for _, ce := range condExprs {
+		cond := strings.ReplaceAll(c.src(ce), " ", "")
 		for v, lit := range lits {
 			if !strings.Contains(cond, v+"[:]") {
 				continue
 			}
 			want := fmt.Sprintf("((@p.pend - @p.pstart) == len(%s)) && bytescase.CmpEq(@b[@p.pstart:@p.pend], %s[:])", v, v)
 			seen[lit]++
-			c.check(patEq(c.src(is.Cond), want), "N3", fmt.Sprintf("known-name:%s#%d", lit, seen[lit]), is.Pos(), "the known parameter "+lit+" is recognised by length and case-insensitive comparison of the whole name, nothing else ("+cond+")")
+			c.check(patEq(c.src(ce), want), "N3", fmt.Sprintf("known-name:%s#%d", lit, seen[lit]), ce.Pos(), "the known parameter "+lit+" is recognised by length and case-insensitive comparison of the whole name, nothing else ("+cond+")")
 		}
-		return true
-	})
+	}
 	var names []string
 	for k := range seen {
 		names = append(names, k)
